@@ -52,9 +52,15 @@ def convert_to_bool_expression(qlassf: QlassF, form: str):
 
 
 def convert_to_dimacs(expr):
-    clauses = to_cnf(expr, simplify=True).args
-    if len(clauses) == 1 and isinstance(clauses[0], sympy.Symbol):
-        clauses = [clauses]
+    cnf = to_cnf(expr, simplify=True)
+    if isinstance(cnf, sympy.And):
+        clauses = cnf.args
+    elif cnf == sympy.true:
+        clauses = []
+    elif cnf == sympy.false:
+        clauses = [sympy.Or()]  # the empty clause
+    else:
+        clauses = [cnf]  # a single clause (or literal) is one clause
 
     var_dict = {symbol: i + 1 for i, symbol in enumerate(expr.free_symbols)}
     dimacs_clauses = []
@@ -62,6 +68,8 @@ def convert_to_dimacs(expr):
     for clause in clauses:
         if isinstance(clause, sympy.Or):
             clause_literals = clause.args
+        elif clause == sympy.false:
+            clause_literals = []
         else:
             clause_literals = [clause]
 
